@@ -231,6 +231,12 @@ func (m *C09Monitor) afterDeploymentPass(r *Runner, pv *PassView) error {
 				return Violf("C09", "released-revision-not-paused-by-parent",
 					"pass %d: unpaused ObjectDeployment set %s to %q although the parent had not paused it", pv.P.ID, c.Key, lifecycleOf(c.Post))
 			}
+			if kubesim.AnnotationsOf(c.Post)[pausedByParentAnnotation] == "true" {
+				// the marker is what "the parent had paused it" is decided from: left behind, a later pause by anybody else
+				// (the user, the archival logic) would be released by the parent as well
+				return Violf("C09", "released-revision-keeps-paused-by-parent-marker",
+					"pass %d: ObjectDeployment released %s but left the paused-by-parent marker on it", pv.P.ID, c.Key)
+			}
 		}
 	}
 	waiting := false
@@ -242,6 +248,13 @@ func (m *C09Monitor) afterDeploymentPass(r *Runner, pv *PassView) error {
 	if pv.P.Err == "" && !waiting {
 		for _, o := range r.DeploymentSets() {
 			if lifecycleOf(o) == "Paused" && kubesim.AnnotationsOf(o)[pausedByParentAnnotation] == "true" {
+				if !pausedByParentWrite(r, o) {
+					// the marker is a leftover: a user released the revision by hand after the parent had paused it (the marker
+					// stays) and the current Paused state was set by someone else (the archival logic pausing an outgoing
+					// revision, the user again). The statement speaks about revisions the parent paused; the next pass clears it.
+					r.Labels["c09-stale-paused-by-parent-marker"] = true
+					continue
+				}
 				if cr, ok := engine.ControllerRef(o); ok && cr.UID == depUID {
 					return Violf("C09", "parent-paused-revision-not-released",
 						"pass %d: ObjectDeployment is not paused but revision %s is still paused by parent after the pass", pv.P.ID, kubesim.MetaString(o, "name"))
@@ -250,6 +263,25 @@ func (m *C09Monitor) afterDeploymentPass(r *Runner, pv *PassView) error {
 		}
 	}
 	return nil
+}
+
+// pausedByParentWrite reports whether the write that put the revision into its current Paused state also set the
+// paused-by-parent marker (i.e. it was the parent's pause), by scanning the trace backwards.
+func pausedByParentWrite(r *Runner, o map[string]any) bool {
+	uid := engine.UID(o)
+	for i := len(r.W.Store.Trace) - 1; i >= 0; i-- {
+		c := r.W.Store.Trace[i]
+		if c.Key.Kind != "ObjectSet" && c.Key.Kind != "ClusterObjectSet" {
+			continue
+		}
+		if c.Post == nil || engine.UID(c.Post) != uid || c.DryRun || !c.Changed() {
+			continue
+		}
+		if lifecycleOf(c.Post) == "Paused" && (c.Pre == nil || lifecycleOf(c.Pre) != "Paused") {
+			return c.Pre == nil || kubesim.AnnotationsOf(c.Pre)[pausedByParentAnnotation] != "true"
+		}
+	}
+	return true
 }
 
 var _ = refmodel.Adopt
